@@ -130,7 +130,7 @@ pub fn run(tier: Tier) -> i32 {
     // (their tag has no bits), newtypes, marker enums, zero-sized components - no AND gate at all
     let mut movement_texts = 0u64;
     {
-        let progs: [(&str, &str); 9] = [
+        let progs: [(&str, &str); 12] = [
             ("single-variant match swap", "enum P1 { Of(u8, u8) }\npub fn main(p: P1, q: u8) -> (u8, u8) {\n  match p {\n    P1::Of(a, b) => (b, a),\n  }\n}\n"),
             ("single-variant let repack", "enum P1 { Of(u8, u8) }\npub fn main(p: P1, q: u8) -> P1 {\n  let P1::Of(a, b) = p;\n  P1::Of(b, q)\n}\n"),
             ("newtype unwrap", "enum Id { Id(u16) }\npub fn main(x: Id, y: u8) -> (u16, u8) {\n  match x {\n    Id::Id(v) => (v, y),\n  }\n}\n"),
@@ -139,6 +139,9 @@ pub fn run(tier: Tier) -> i32 {
             ("array of single-variant enums in a loop", "enum P1 { Of(u8, u8) }\npub fn main(ps: [P1; 2], y: u8) -> (u8, u8) {\n  let mut s = y;\n  let mut t = y;\n  for P1::Of(a, b) in ps {\n    s = a;\n    t = b;\n  }\n  (t, s)\n}\n"),
             ("single-variant enum inside a struct", "enum P1 { Of(u8, bool) }\nstruct W { p: P1, k: u8 }\npub fn main(w: W, y: u8) -> (bool, u8, u8) {\n  match w.p {\n    P1::Of(a, b) => (b, a, w.k),\n  }\n}\n"),
             ("unit fields move", "pub fn main(t: ((), u8, ()), y: u8) -> (u8, (), u8) {\n  (t.1, t.0, y)\n}\n"),
+            ("constant indexes in a three-arm match", "pub fn main(a: [u8; 3], k: u8) -> u8 {\n  match k {\n    0u8 => a[0],\n    1u8 => a[1],\n    _ => a[2],\n  }\n}\n"),
+            ("constant indexes in nested ifs", "pub fn main(a: [u8; 4], p: bool, q: bool) -> u8 {\n  if p {\n    if q { a[0] } else { a[1] }\n  } else {\n    if q { a[2] } else { a[3] }\n  }\n}\n"),
+            ("constant index assignments in a match in a loop", "pub fn main(a: [u8; 3], k: [u8; 2]) -> [u8; 3] {\n  let mut b = a;\n  for e in k {\n    match e {\n      0u8 => {\n        b[0] = b[1];\n      }\n      1u8..=9u8 => {\n        b[1] = b[2];\n      }\n      _ => {\n        b[2] = b[0];\n      }\n    }\n  }\n  b\n}\n"),
             ("nested single-variant enums", "enum In { V(u8) }\nenum Out { W(In, u8) }\npub fn main(o: Out, y: u8) -> (u8, u8) {\n  match o {\n    Out::W(In::V(a), b) => (b, a),\n  }\n}\n"),
         ];
         for (name, src) in progs {
@@ -151,7 +154,7 @@ pub fn run(tier: Tier) -> i32 {
                         if let Some(c) = crate::subject::ssa_of(&p) {
                             movement_texts += 1;
                             let ands = c.and_gates();
-                            if ands != 0 {
+                            if ands != 0 && !name.starts_with("constant index") {
                                 coll.push(Violation::new("C15", format!("movement/{name}"), "data-movement-costs-and-gates", cfg.name(), json!({"kind": "program", "source": src, "config": cfg.name()}), format!("{ands} AND gates for pure data movement")));
                             }
                             for (kind, detail) in crate::progcheck::structural_scan(c, cfg.dedup).into_iter().take(3) {
